@@ -362,6 +362,10 @@ func (vc *VC) get(st *State, name string, sort Sort) Term {
 	fresh := !vc.q.IsDeclared(cname)
 	t := vc.q.Declare(cname, sort)
 	st.mem[name] = t
+	if fresh && st.gen == 0 && strings.HasPrefix(name, "W_cas_") && vc.casPre[name] {
+		// no CAS has been won at function entry
+		vc.q.Raw(fmt.Sprintf("(assert (forall ((r Int) (p Path)) (! (not (select (select %s r) p)) :pattern ((select (select %s r) p)))))", cname, cname))
+	}
 	if fresh && st.gen == 0 && vc.top != nil && vc.top.entry != nil {
 		// every reference stored in the initial heap denotes an object that existed at entry
 		a0 := vc.top.entry.alloc.S
